@@ -72,6 +72,12 @@ def _dt_plan(draw, max_len):
             else:
                 kw[c] = draw(rng[c])
         plan["kw"] = kw
+    elif op == "roundtrip":
+        # a format that carries every field of the unit, and years >= 1000 (strptime needs 4 digits)
+        plan["format"] = {"D": draw(st.sampled_from(["%Y-%m-%d", "%d.%m.%Y"])), "s": "%Y-%m-%dT%H:%M:%S"}.get(
+            unit, "%Y-%m-%dT%H:%M:%S.%f")
+        if draw(st.integers(0, 5)):
+            plan["vals"] = [v if v is None or int(v[:4]) >= 1000 else "2000" + v[4:] for v in vals]   # 2000 is a leap year: Feb 29 stays valid
     else:
         plan["format"] = draw(st.sampled_from(FORMATS))
     return plan
